@@ -866,22 +866,57 @@ theorem nonl_headerLines (h : Header) (hwf : h.wf = true) : ∀ l ∈ headerLine
 
 /-! ### lines of a block that are not position records -/
 
-/-- not empty, no position record, no epoch line -/
-def Inert (l : Str) : Prop := l ≠ [] ∧ l.take 1 ≠ ['P'] ∧ ¬ Star l
+/-- no position record, no epoch line (possibly empty: the parser skips empty lines) -/
+def Inert (l : Str) : Prop := l.take 1 ≠ ['P'] ∧ ¬ Star l
 
 theorem inert_of_head {c : Char} {t : Str} (h : isSpace c = false) (hp : c ≠ 'P') (hs : c ≠ '*') :
     Inert (rstrip (c :: t)) := by
   rw [rstrip_cons t h]
-  refine ⟨by simp, by simp [hp], ?_⟩
+  refine ⟨by simp [hp], ?_⟩
   unfold Star
   simp [hs]
 
-theorem inert_extra (x : ExtraKind × Str) : Inert (rstrip (extraLine x)) := by
+theorem inert_nil : Inert [] := ⟨by decide, by unfold Star; decide⟩
+
+theorem okExtra_okText {x : ExtraKind × Str} (h : okExtra x = true) : okText x.2 = true := by
+  simp only [okExtra, Bool.and_eq_true] at h
+  exact h.1
+
+/-- a line of blanks is empty after `rstrip` -/
+theorem rstrip_allBlank (t : Str) (h : t.all (· == ' ') = true) : rstrip t = [] := by
+  unfold rstrip
+  have hall : ∀ l : Str, (∀ c ∈ l, c = ' ') → l.dropWhile isSpace = [] := by
+    intro l
+    induction l with
+    | nil => intro _; rfl
+    | cons c cs ih =>
+      intro hl
+      have hc : c = ' ' := hl c (by simp)
+      subst hc
+      have hs : isSpace ' ' = true := by decide
+      simp only [List.dropWhile_cons, hs, if_true]
+      exact ih (fun d hd => hl d (by simp [hd]))
+  have : t.reverse.dropWhile isSpace = [] := by
+    apply hall
+    intro c hc
+    have hc' := List.all_eq_true.mp h c (List.mem_reverse.mp hc)
+    simpa using hc'
+  rw [this]
+  rfl
+
+/-- what is left of a blank line of a well-formed record -/
+theorem rstrip_blankLine (t : Str) (h : okExtra (ExtraKind.blank, t) = true) : rstrip (extraLine (ExtraKind.blank, t)) = [] := by
+  simp only [okExtra, Bool.and_eq_true] at h
+  simpa [extraLine, ExtraKind.tag] using rstrip_allBlank t h.2
+
+theorem inert_extra (x : ExtraKind × Str) (hx : okExtra x = true) : Inert (rstrip (extraLine x)) := by
   obtain ⟨k, t⟩ := x
   cases k
   · exact inert_of_head (t := t) (c := 'V') (by decide) (by decide) (by decide)
   · exact inert_of_head (t := 'P' :: t) (c := 'E') (by decide) (by decide) (by decide)
   · exact inert_of_head (t := 'V' :: t) (c := 'E') (by decide) (by decide) (by decide)
+  · rw [rstrip_blankLine t hx]
+    exact inert_nil
 
 theorem inert_eof : Inert (rstrip eofLine) :=
   inert_of_head (t := ['O', 'F']) (c := 'E') (by decide) (by decide) (by decide)
